@@ -8,13 +8,14 @@ LEAN_IMPORTS = ["WM.Props.C17"]
 THEOREMS = ["WM.C17.positions", "WM.C17.offsets", "WM.C17.mode_agree_chain", "WM.C17.mode_agree_ngrams",
             "WM.C17.findable", "WM.C17.findable_chain", "WM.C17.findable_ngramwords", "WM.C17.highlight",
             "WM.C17.findable_postings", "WM.C17.findable_postings_chain", "WM.C17.findable_postings_ngramwords",
-            "WM.C17.mode_agree_multi", "WM.C17.findable_multi"]
+            "WM.C17.mode_agree_multi", "WM.C17.findable_multi", "WM.C17.offsets_delimited"]
 _MODELLED = (
     "holds for the modelled components only: regular-expression tokenizers (default pattern, space- and "
     "comma-separated, \\S+), IDTokenizer, NgramTokenizer and the Lowercase/Strip/Pass/Stop/Ngram/BiWord filters, the "
     "text-rewriting filters Charset/ReverseText/Substitution (string function as parameter), StemFilter (stemming "
-    "function as parameter) and MultiFilter - not 'all shipped analyzers/filters': the stemming algorithms themselves, "
-    "intraword/compound/shingle/tee/metaphone/delimited components and the language analyzers are decided by the "
+    "function as parameter), MultiFilter and DelimitedAttributeFilter (text and character range; any delimiter) - "
+    "not 'all shipped analyzers/filters': the stemming algorithms themselves, "
+    "intraword/compound/shingle/tee/metaphone components and the language analyzers are decided by the "
     "end-to-end relation test only (exploration)")
 PARTIAL = {
     "WM.C17.positions": _MODELLED + "; stated for a .regex tokenizer followed by Lowercase/Strip/Pass/Stop/text-rewriting/"
@@ -22,6 +23,12 @@ PARTIAL = {
                         "(ngram and biword chains also preserve offsets but are not covered by the theorem)",
     "WM.C17.offsets": _MODELLED + "; stated for a .regex tokenizer followed by Lowercase/Strip/Pass/Stop/text-rewriting "
                       "filters (the token's text is the chain's text function applied to text[startchar:endchar])",
+    "WM.C17.offsets_delimited":
+        "DelimitedAttributeFilter directly behind a .regex tokenizer, followed by Lowercase/Strip/Pass/Stop/text-rewriting "
+        "filters (a text-changing filter *before* it is excluded: the cut is made in the changed text, the range is "
+        "reduced by a count of changed characters); the attribute value the filter sets (and the exception its "
+        "conversion may raise: recorded finding for the default float type) is not in the model; `startchar <= endchar` "
+        "only: a token that begins with the delimiter is left empty",
     "WM.C17.mode_agree_chain":
         "for chains without n-gram filters and without MultiFilter (hypothesis `modeFree`): for those the model's "
         "`runFilter` does not read `mode`, as the code of these filters does not, so the statement is close to true by "
@@ -589,10 +596,10 @@ def replay(ctx, rec):
 
 
 EXPLANATION = (
-    "Correspondence: 34 analyzer configurations built from the modelled tokenizers/filters are run on generated "
+    "Correspondence: 36 analyzer configurations built from the modelled tokenizers/filters are run on generated "
     "multi-script texts in both modes with and without removestops; the real tokens (text, pos, startchar, endchar, "
     "stopped) must equal the Lean model's; Formatter.format_fragment is compared on random fragments. End-to-end: "
-    "every shipped analyzer/filter (65 configurations incl. one LanguageAnalyzer per language) in TEXT fields with "
+    "every shipped analyzer/filter (69 configurations incl. one LanguageAnalyzer per language) in TEXT fields with "
     "characters / positions / frequencies and every built-in text field type: index the text, then search by each "
     "own token, by the conjunction of the query-time tokens, by what QueryParser.term_query builds for the text and "
     "its words, by phrases of consecutive positions; check positions and offsets against the source text; highlight "
@@ -619,15 +626,15 @@ MANIFEST = {
     "level_text": "Lean theorems (no bounds) over an executable model of the regular-expression tokenizers (default "
                   "pattern, space- and comma-separated), IDTokenizer, NgramTokenizer, Lowercase/Strip/Pass/Stop/Ngram/"
                   "BiWord filters, Charset/ReverseText/Substitution/Stem filters with their string function as parameter, "
-                  "MultiFilter (branch chosen by the stream's mode), the position/character recording of the formats and Formatter.format_fragment: "
+                  "MultiFilter (branch chosen by the stream's mode), DelimitedAttributeFilter (delimiter of any length), the position/character recording of the formats and Formatter.format_fragment: "
                   "positions strictly increase (also after a renumbering StopFilter), offsets delimit the token's "
                   "source and do not overlap, query-time tokens are index-time tokens (identical for mode-free chains, "
                   "a subset for n-grams), own tokens / query-time conjunction / consecutive-position phrases match, a "
                   "formatted fragment stripped of markup is one slice of the text and marked spans are matches. Tied "
-                  "to the code by a differential run on 34 analyzer configurations and on format_fragment, plus an "
+                  "to the code by a differential run on 36 analyzer configurations and on format_fragment, plus an "
                   "end-to-end relation test of every shipped analyzer/filter x text field type x fragmenter x formatter.",
-    "level_note": "Level `other`: proof for the modelled chains; stemming algorithms, intraword/compound/shingle/tee/metaphone/"
-                  "delimited components and the fragmenters are decided by the end-to-end relation test only "
+    "level_note": "Level `other`: proof for the modelled chains; stemming algorithms, intraword/compound/shingle/tee/metaphone "
+                  "components and the fragmenters are decided by the end-to-end relation test only "
                   "(exploration). Trusted: Lean kernel + propext/Quot.sound/Classical.choice; the model mirrors the "
                   "code only as far as the differential run shows; CPython's Unicode tables and re.",
     "technique": "machine-checked proof in Lean 4 over an executable model + differential correspondence check + "
